@@ -30,6 +30,7 @@ ASSUMPTIONS = list(g9.ASSUMPTIONS) + [
     "error messages are compared verbatim with the model's (they are part of the visible marker)",
 ]
 TRUSTED = list(g9.TRUSTED)
+RELEASE_TOO = True          # the sampled cases also run through the release-profile harness (see ./check)
 EXHAUSTIVE = {"quick": False, "thorough": False}
 
 
